@@ -287,6 +287,18 @@ def corpus():
         "I": [["a"], ["[", "L", "]"], ["[", "!", "]"], ["b", "!", "c"]]}))
     C.append(G("rec_top", ["x", ";"], {
         "S": [["x", ";"], ["S", "x", ";"], ["!", ";"]]}))
+    # `!` directly after a nonterminal: the state in which the token is rejected reduces on `!` while
+    # it could still shift (the expected list must be taken BEFORE those reductions)
+    C.append(G("rec_after_nt", ["x", "y", "z", ";"], {
+        "P": [["Ss"]],
+        "Ss": [["St"], ["Ss", "St"]],
+        "St": [["E", ";"], ["E", "!", ";"]],
+        "E": [["x"], ["x", "y"]]}))
+    C.append(G("rec_after_nt2", ["n", "+", "(", ")", ","], {
+        "S": [["E"]],
+        "E": [["T"], ["E", "+", "T"]],
+        "T": [["n"], ["(", "L", ")"], ["(", "L", "!", ")"]],
+        "L": [["E"], ["L", ",", "E"]]}))
     # recovery followed by nullable symbols: `accepts` must simulate empty reductions
     C.append(G("rec_opt", ["let", "id", "=", "num", ";"], {
         "S": [["let", "id", "I", ";"], ["let", "!", "I", ";"]],
